@@ -466,7 +466,7 @@ def c06_molecules(tier):
 
 
 def c06_shard(job):
-    tier, mi, M, depth = job
+    tier, mi, M, depth, part, nparts = job
     res = {"exec": 0, "vios": [], "states": 0, "transitions": 0, "nontrivial": 0, "by_kind": {}}
     sp0 = MF.default_spelling()
     t0 = MF.v3000_text(M, sp0)
@@ -498,30 +498,38 @@ def c06_shard(job):
             res["vios"].append((f"C06|{k}", {"kind": "molfile-pair", "n": len(M.atoms), "molfile_a": t0, "molfile_b": text,
                                             "label": label, "summary": f"{label}: {msg}"}))
 
-    run("v2000-default", MF.v2000_text(M))
     ddevs = list(MF.data_deviations(M, tier))
-    for label, M2 in ddevs:
-        run("v3:" + label, MF.v3000_text(M2, sp0))
-        if all(abs(c) < 9999.9 for a in M2.atoms for c in a.xyz):
-            run("v2:" + label, MF.v2000_text(M2))
     sdevs = [d for d in MF.v3_structure_deviations(M, tier)]
-    for label, kw in sdevs:
-        run("v3:" + label, MF.v3000_text(M, MF.with_(sp0, **kw)))
-    v2devs = list(v2_deviations("c06", M, tier))
-    for label, kw in v2devs:
-        try:
-            run("v2:" + label, MF.v2000_text(M, MF.with_(MF.default_v2_spelling(), **kw)))
-        except AssertionError:
-            pass
+    if part == 0:
+        run("v2000-default", MF.v2000_text(M))
+        for label, M2 in ddevs:
+            run("v3:" + label, MF.v3000_text(M2, sp0))
+            if all(abs(c) < 9999.9 for a in M2.atoms for c in a.xyz):
+                run("v2:" + label, MF.v2000_text(M2))
+        for label, kw in sdevs:
+            run("v3:" + label, MF.v3000_text(M, MF.with_(sp0, **kw)))
+        v2devs = list(v2_deviations("c06", M, tier))
+        for label, kw in v2devs:
+            try:
+                run("v2:" + label, MF.v2000_text(M, MF.with_(MF.default_v2_spelling(), **kw)))
+            except AssertionError:
+                pass
     if depth >= 2:
+        k = 0
         for (l1, m1), (l2, m2) in combinations(ddevs, 2):
             f1, f2 = l1.split("=")[0], l2.split("=")[0]
             if f1 == f2:
+                continue
+            k += 1
+            if k % nparts != part:
                 continue
             M3 = _merge(M, m1, m2)
             run(f"v3:{l1} + v3:{l2}", MF.v3000_text(M3, sp0))
         for l1, m1 in ddevs:
             for l2, kw in sdevs:
+                k += 1
+                if k % nparts != part:
+                    continue
                 try:
                     run(f"v3:{l1} + v3:{l2}", MF.v3000_text(m1, MF.with_(sp0, **kw)))
                 except AssertionError:
@@ -599,7 +607,9 @@ def run_c06(tier):
             depth = 2 if (n >= 4 and mi % 2 == 0) or (n == 3 and len(M.bonds) == 2 and mi % 40 == 0) else 1
         else:
             depth = 2 if n >= 4 or (n == 3 and mi % 8 == 0) or n == 2 else 1
-        jobs.append((tier, mi, M, depth))
+        nparts = 12 if depth >= 2 else 1
+        for part in range(nparts):
+            jobs.append((tier, mi, M, depth, part, nparts))
     jobs.sort(key=lambda j: -(j[3] * 100 + len(j[2].atoms)))
     by_kind = {}
     for job, res in pmap(c06_shard, jobs):
